@@ -562,6 +562,10 @@ val run_segs :
   (seg -> node list -> node list result) -> seg list -> node list -> node
   list result
 
+val m_sel : envcfg -> json -> sel -> node -> node list result
+
+val m_expr : envcfg -> json -> json -> expr -> pyobj result
+
 val m_seg : envcfg -> json -> seg -> node list -> node list result
 
 val m_segs : envcfg -> json -> seg list -> node list -> node list result
@@ -609,6 +613,13 @@ val fn_sem : (bool -> str -> str -> bool) -> fdecl -> sval list -> sval
 
 val run_segs_s :
   (seg -> node list -> node list) -> seg list -> node list -> node list
+
+val s_sel :
+  registry -> (bool -> str -> str -> bool) -> json -> sel -> node -> node list
+
+val s_expr :
+  registry -> (bool -> str -> str -> bool) -> ty3 -> json -> json -> expr ->
+  sval
 
 val s_seg :
   registry -> (bool -> str -> str -> bool) -> json -> seg -> node list ->
@@ -1224,6 +1235,33 @@ val count_nodes : json -> nat
 
 val nd_visit : nat -> z list -> node -> node list result
 
+type supply = z list list
+
+val take_sub : supply -> z list * supply
+
+val nd_children : supply -> node -> node list * supply
+
+val m_filter_list : envcfg -> json -> expr -> node list -> node list result
+
+val nd_sel :
+  envcfg -> json -> supply -> sel -> node -> (node list * supply) result
+
+val nd_sels :
+  envcfg -> json -> supply -> sel list -> node -> (node list * supply) result
+
+val nd_nodes :
+  (supply -> node -> (node list * supply) result) -> supply -> node list ->
+  (node list * supply) result
+
+val nd_seg :
+  envcfg -> json -> supply -> seg -> node list -> (node list * supply) result
+
+val nd_segs :
+  envcfg -> json -> supply -> seg list -> node list -> (node list * supply)
+  result
+
+val m_find_nd : envcfg -> supply -> query -> json -> node list result
+
 val loc_eqb : key list -> key list -> bool
 
 val index_of : key list -> key list list -> nat -> nat option
@@ -1241,6 +1279,31 @@ val picks : 'a1 list list -> 'a1 list list -> ('a1 * 'a1 list list) list
 val all_orders_from : nat -> node list list -> node list list
 
 val all_orders : node -> node list list
+
+val all_perms : nat -> 'a1 list -> 'a1 list list
+
+val kid_orders : node -> node list list
+
+val cat_choices : 'a1 list list list -> 'a1 list list
+
+val e_sel :
+  registry -> (bool -> str -> str -> bool) -> json -> node -> sel -> node
+  list list
+
+val e_sels :
+  registry -> (bool -> str -> str -> bool) -> json -> sel list -> node ->
+  node list list
+
+val e_seg :
+  registry -> (bool -> str -> str -> bool) -> json -> seg -> node list ->
+  node list list
+
+val e_segs :
+  registry -> (bool -> str -> str -> bool) -> json -> seg list -> node list
+  -> node list list
+
+val nd_results :
+  registry -> (bool -> str -> str -> bool) -> query -> json -> node list list
 
 type citem =
 | CIRange of n * n
@@ -1401,6 +1464,10 @@ val op_graph : z list -> z list
 val op_valid_order : z list -> z list
 
 val op_all_orders : z list -> z list
+
+val op_find_nd : z list -> z list
+
+val op_nd_results : z list -> z list
 
 val op_map_re : z list -> z list
 
